@@ -95,9 +95,15 @@ val concat : 'a1 list list -> 'a1 list
 
 val map : ('a1 -> 'a2) -> 'a1 list -> 'a2 list
 
+val flat_map : ('a1 -> 'a2 list) -> 'a1 list -> 'a2 list
+
 val fold_left : ('a1 -> 'a2 -> 'a1) -> 'a2 list -> 'a1 -> 'a1
 
 val fold_right : ('a2 -> 'a1 -> 'a1) -> 'a1 -> 'a2 list -> 'a1
+
+val forallb : ('a1 -> bool) -> 'a1 list -> bool
+
+val filter : ('a1 -> bool) -> 'a1 list -> 'a1 list
 
 val find : ('a1 -> bool) -> 'a1 list -> 'a1 option
 
@@ -180,6 +186,12 @@ val gf_ReduceResonanceTolerance : q
 val gf_CoefficientTolerance : q
 
 val prepare_copies_tolerances : bool
+
+val compute_sizes_table_before_vanishing_test : bool
+
+val compute_guards_empty_reduce : bool
+
+val add_term_retries : bool
 
 val permutations3 : (((int * int) * int) * z) list
 
@@ -296,9 +308,27 @@ val split_upper :
 
 val set_find : ('a1 -> 'a1 -> bool) -> 'a1 -> 'a1 list -> 'a1 option
 
+type 't ins_res =
+| Inserted of 't list
+| Blocked of 't list * 't * 't list
+
+val set_insert_res : ('a1 -> 'a1 -> bool) -> 'a1 -> 'a1 list -> 'a1 ins_res
+
 val set_insert : ('a1 -> 'a1 -> bool) -> 'a1 -> 'a1 list -> bool * 'a1 list
 
 val set_erase : ('a1 -> 'a1 -> bool) -> 'a1 -> 'a1 list -> 'a1 list
+
+val add_term_plain :
+  ('a1 -> 'a1 -> bool) -> ('a1 -> 'a1 -> 'a1) -> ('a1 -> int -> bool) -> 'a1
+  -> 'a1 list -> bool * 'a1 list
+
+val add_term_loop :
+  ('a1 -> 'a1 -> bool) -> ('a1 -> 'a1 -> 'a1) -> ('a1 -> int -> bool) -> int
+  -> 'a1 -> 'a1 list -> bool * 'a1 list
+
+val add_term_gen :
+  ('a1 -> 'a1 -> bool) -> ('a1 -> 'a1 -> 'a1) -> ('a1 -> int -> bool) -> bool
+  -> 'a1 -> 'a1 list -> bool * 'a1 list
 
 val add_term :
   ('a1 -> 'a1 -> bool) -> ('a1 -> 'a1 -> 'a1) -> ('a1 -> int -> bool) -> 'a1
@@ -414,6 +444,18 @@ val emit :
   'a1 numops -> 'a1 tols -> 'a1 part_st -> (bool * 'a1 emission) -> 'a1
   part_st
 
+val part_emissions :
+  'a1 numops -> int -> 'a1 tols -> 'a1 part_in -> 'a1 emission list outcome
+
+val sep_pair : 'a1 numops -> 'a1 -> 'a1 -> 'a1 -> bool
+
+val separated_b : 'a1 numops -> 'a1 -> 'a1 list -> bool
+
+val em_poles : 'a1 numops -> bool -> bool -> int -> 'a1 emission -> 'a1 list
+
+val emissions_separated_b :
+  'a1 numops -> 'a1 tols -> 'a1 emission list -> bool
+
 val part_compute :
   'a1 numops -> int -> 'a1 tols -> 'a1 part_in -> 'a1 part_st outcome
 
@@ -494,9 +536,13 @@ val run_parts :
   -> ('a1 part_in * 'a1 part_st) list -> 'a1 list -> (('a1 part_in * 'a1
   part_st) list * 'a1 list) outcome
 
+val gf_compute_gen :
+  'a1 numops -> bool -> bool -> int -> 'a1 tols -> bool ->
+  (('a1 * 'a1) * 'a1) list -> 'a1 gf_st -> ('a1 list * 'a1 gf_st) outcome
+
 val gf_compute :
-  'a1 numops -> bool -> int -> 'a1 tols -> bool -> (('a1 * 'a1) * 'a1) list
-  -> 'a1 gf_st -> ('a1 list * 'a1 gf_st) outcome
+  'a1 numops -> int -> 'a1 tols -> bool -> (('a1 * 'a1) * 'a1) list -> 'a1
+  gf_st -> ('a1 list * 'a1 gf_st) outcome
 
 val f_tols : (Float64.t -> Float64.t) -> fc tols
 
@@ -511,12 +557,23 @@ val f_part_compute :
 val f_part_visits :
   (Float64.t -> Float64.t) -> int -> fc part_in -> fc visit list outcome
 
+val f_part_emissions :
+  (Float64.t -> Float64.t) -> int -> fc tols -> fc part_in -> fc emission
+  list outcome
+
+val f_emissions_separated_b :
+  (Float64.t -> Float64.t) -> fc tols -> fc emission list -> bool
+
 val f_part_eval :
   (Float64.t -> Float64.t) -> fc tols -> fc part_in -> fc part_st -> fc -> fc
   -> fc -> fc outcome
 
 val f_gf_compute :
-  (Float64.t -> Float64.t) -> bool -> int -> fc tols -> bool ->
+  (Float64.t -> Float64.t) -> int -> fc tols -> bool -> ((fc * fc) * fc) list
+  -> fc gf_st -> (fc list * fc gf_st) outcome
+
+val f_gf_compute_gen :
+  (Float64.t -> Float64.t) -> bool -> bool -> int -> fc tols -> bool ->
   ((fc * fc) * fc) list -> fc gf_st -> (fc list * fc gf_st) outcome
 
 val f_gf_value :
